@@ -201,6 +201,8 @@ def finish(ctx: Ctx, level: str = 'model_checking') -> int:
             continue
         seen_known.add(kid)
         lines.append(f'KNOWN-FINDING: property={ctx.pid} {k.get("what", v["what"])} [signature={kid}]')
+        if os.environ.get('VERIF_SHOW_WITNESS') == '1':
+            lines.append(f'  this run: cases={v["count"]} {v["what"]} case={json.dumps(v["case"], default=repr)[:600]}')
     diverged = []
     confirmed = 0
     for sig, v in new_viol:
